@@ -7,6 +7,7 @@ import (
 	"fmt"
 	"hash/fnv"
 	"os"
+	"runtime"
 	"sort"
 	"strconv"
 	"strings"
@@ -260,7 +261,39 @@ func Main(t *testing.T) {
 		}
 		return
 	}
+	// last-resort watchdog: a busy loop or a goroutine blocked on a real mutex keeps the quiescence
+	// oracle from returning; a worker that makes no progress for VERIF_STALL_S seconds dumps its
+	// goroutines and exits, and the driver attributes the death to the breadcrumb.
+	stall := 150
+	if v, err := strconv.Atoi(os.Getenv("VERIF_STALL_S")); err == nil && v > 0 {
+		stall = v
+	}
+	stop := make(chan struct{})
+	go func() {
+		last, lastT := int64(-1), time.Now()
+		for {
+			select {
+			case <-stop:
+				return
+			case <-time.After(2 * time.Second):
+			}
+			c.mu.Lock()
+			cur := c.evals + c.trans + c.states + int64(len(c.distinct))
+			c.mu.Unlock()
+			if cur != last {
+				last, lastT = cur, time.Now()
+				continue
+			}
+			if time.Since(lastT) > time.Duration(stall)*time.Second {
+				buf := make([]byte, 1<<20)
+				n := runtime.Stack(buf, true)
+				fmt.Printf("WATCHDOG: no progress for %d s; goroutines:\n%s\n", stall, buf[:n])
+				os.Exit(3)
+			}
+		}
+	}()
 	h.Run(c)
+	close(stop)
 	c.write()
 }
 
